@@ -47,6 +47,9 @@ def stm_sweeps(ctx):
     return [
         ("v-rw", 151, 400 if q else 6000, ["txs=2..5", "workers=2,3,4", "opts=shared,ben"]),
         ("v-pct", 152, 250 if q else 4000, ["txs=3..7", "workers=3,4", "strat=pct", "opts=shared"]),
+        # a validator frozen mid-scan while its predecessors are invalidated, re-executed and made
+        # final: the schedule in which only the timestamp guard keeps the stale result out
+        ("v-strag", 154, 1000 if q else 15000, ["txs=3..6", "workers=2,3,4", "opts=shared,chain", "strat=straggler"]),
         ("v-sticky", 153, 250 if q else 4000, ["txs=3..8", "workers=2,3", "strat=sticky", "opts=shared,ben"]),
     ]
 
